@@ -65,6 +65,13 @@ class Inst:
       else:
         self.val[n] = [self.ev(e, self.d.twidth(t))]
     self.children = {}
+    # IEEE 1800-2017 3.13 (e): named blocks, instance names, parameters, nets and variables share the name space of the module
+    space = set(self.vars)
+    for kind, names in (("instance", [iname for mod, iname, conns in m["insts"]]),
+                        ("named block", [l for l, st in m["combs"] if l] + [l for l, clk, st in m["ffs"] if l])):
+      for n in names:
+        if n in space: raise SvSyntaxError(f"{m['name']}: {kind} {n} has the name of another declaration in the module")
+        space.add(n)
     for mod, iname, conns in m["insts"]:
       self.children[iname] = (Inst(design, mod, path + "." + iname), conns)
     self.nba = []
